@@ -407,8 +407,16 @@ def make_reg():
                 g.fields[flag] = VBool(True)
         if m.cls == "Terminator" and name == "close" and args:
             g.fields["close_mood"] = mood_enum(it, args[0])
-        if m.cls == "RendezvousConnector":
-            pass
+        if m.cls == "Mailbox" and name == "add_message" and args:
+            ph = it.force(args[0])
+            c = it.concrete(ph) if isinstance(ph, VStr) else _NOCONST
+            if c == "version":
+                g.fields["version_added"] = VBool(True)
+            elif c != "pake":
+                # an application (or dilation) phase: our versions message is already in the mailbox,
+                # so a server that preserves submission order shows the peer our versions first (C18)
+                it.ctx.prove(it.truth(g.fields["version_added"]), "post:C18:version-submitted-before-any-data-phase",
+                             {"kind": "post", "src": "the 'version' message is added to the mailbox before any data phase"})
 
     if reg.automat is None:
         from pyvc.automat import AutomatSupport
